@@ -1063,13 +1063,18 @@ fn libfuzzer_stage(check: &mut Check) {
 	}
 	let seed = check.seed;
 	let mut handles = vec![];
+	// VERIF_FUZZ_SCALE=<n> divides the number of runs (for trying the stage out)
+	let scale: u64 = std::env::var("VERIF_FUZZ_SCALE").ok().and_then(|v| v.parse().ok()).unwrap_or(1).max(1);
 	for (target, entry, runs) in targets {
+		let runs = runs / scale;
 		let corpus = util::tmp_dir();
 		let artifacts = util::tmp_dir();
 		// corpus: valid and lightly mutated encodings from the generators
 		for i in 0..300u64 {
 			let c = vt::engine::sample_one(&cases(entry), seed.wrapping_mul(1000).wrapping_add(i));
-			if c.data.len() <= 65536 {
+			// seeds on which the code under test runs into the time limit would end every
+			// campaign round at once
+			if c.data.len() <= 65536 && matches!(run_in_worker(&c), Outcome::Reply(_)) {
 				let _ = std::fs::write(corpus.join(format!("seed{i}")), &c.data);
 			}
 		}
@@ -1079,7 +1084,7 @@ fn libfuzzer_stage(check: &mut Check) {
 			// that a campaign continues behind a finding
 			let mut executed = 0u64;
 			let mut cov = 0u64;
-			for round in 0..6u64 {
+			for round in 0..40u64 {
 				let before = std::fs::read_dir(&artifacts).map(|d| d.count()).unwrap_or(0);
 				let left = runs.saturating_sub(executed);
 				if left < 1000 {
